@@ -1,6 +1,7 @@
 package spec
 
 import (
+	"strings"
 	"verif/sim/core"
 )
 
@@ -18,7 +19,7 @@ type GenOpt struct {
 }
 
 var intEdges = map[int][]uint64{
-	8:  {0, 1, 0x7f, 0x80, 0xff},
+	8:  {0, 1, 0x7f, 0x80, 0xff, 0x20, 0x30, 0x12, 0x13, 0x34, 4, 8, 15, 246}, // also the protocols' own constants: versions, codings
 	16: {0, 1, 0x7fff, 0x8000, 0xffff},
 	32: {0, 1, 0x7fffffff, 0x80000000, 0xffffffff},
 	64: {0, 1, 0x7fffffffffffffff, 0x8000000000000000, 0xffffffffffffffff},
@@ -55,7 +56,21 @@ func genText(c *core.Chooser, max int, o GenOpt) []byte {
 	b := c.Blob(n, alpha)
 	// edge shapes chance would not produce: blanks at the ends, nothing but blanks, digits only
 	if n > 0 && o.Shape == 0 {
-		switch c.Pick(40, 1, 1, 1, 1) {
+		switch c.Pick(40, 1, 1, 1, 1, 2) {
+		case 5:
+			// words the protocols give a meaning to, in some letter case: a decoder may "normalise" them
+			w := StateWords[c.Intn(len(StateWords))]
+			switch c.Intn(4) {
+			case 1:
+				w = strings.ToLower(w)
+			case 2:
+				w = w[:1] + strings.ToLower(w[1:])
+			case 3:
+				w = strings.ToLower(w[:1]) + w[1:]
+			}
+			if len(w) <= max {
+				b = []byte(w)
+			}
 		case 1:
 			for i := range b {
 				b[i] = ' '
@@ -72,6 +87,9 @@ func genText(c *core.Chooser, max int, o GenOpt) []byte {
 	}
 	return b
 }
+
+// StateWords: message states and other words the specifications define.
+var StateWords = []string{"DELIVRD", "EXPIRED", "DELETED", "UNDELIV", "ACCEPTD", "UNKNOWN", "REJECTD", "ENROUTE", "CMT", "CPT", "VMN", "WAP", "USSD"}
 
 // StdTags: the optional-parameter tags SMPP 3.4 defines (section 5.3.2); parsers may treat some of them specially.
 var StdTags = []uint16{0x0005, 0x0006, 0x0007, 0x0008, 0x000d, 0x000e, 0x000f, 0x0010, 0x0017, 0x0019, 0x001d, 0x001e, 0x0030,
